@@ -99,7 +99,10 @@ def check_dataset(x: Sequence[float], y: Sequence[float], outside: Sequence[floa
         ivs = sorted(i for i in keep if 0 <= i < n - 1)
     qs: list[float] = []
     plan: list[tuple] = []  # (kind, interval, k)
-    for j in range(n):
+    knots = range(n)
+    if max_intervals is not None and n > 4 * max_intervals:
+        knots = sorted({0, 1, n - 2, n - 1} | set(ivs) | {i + 1 for i in ivs} | set(rng.sample(range(n), 2 * max_intervals)))
+    for j in knots:
         qs.append(float(x[j]))
         plan.append(("knot", j, 0))
     for i in ivs:
